@@ -59,7 +59,20 @@ def _composites():
         return cuqi.distribution.Lognormal(lambda s: np.array([0.1, 0.2]) * s, np.array([0.5, 0.5]), name="w")
     def rgm():
         return cuqi.implicitprior.RegularizedGMRF(np.zeros(3), prec=lambda s: s, constraint="nonnegativity", name="w")
-    return [("RegularizedGaussian", reg), ("ConstrainedGaussian", con), ("Lognormal", lgn), ("RegularizedGMRF", rgm)]
+    def lazy_normal():
+        # no geometry: the size is only known once the distribution is conditioned (copies of DIFFERENT sizes)
+        return cuqi.distribution.Normal(mean=lambda s: s, std=lambda s: 1.5 + 0 * np.abs(s), name="w")
+    def lazy_laplace():
+        return cuqi.distribution.Laplace(location=lambda s: s, scale=lambda s: 0.5 + 0 * np.abs(s), name="w")
+    return [("RegularizedGaussian", reg), ("ConstrainedGaussian", con), ("Lognormal", lgn), ("RegularizedGMRF", rgm),
+            ("LazyNormal", lazy_normal), ("LazyLaplace", lazy_laplace)]
+
+
+def _cond_value(o, which):
+    """value for the conditioning variable: size-agnostic distributions get vectors of different lengths"""
+    if type(o).__name__ in ("Normal", "Laplace"):
+        return np.linspace(-1, 1, 5) if which == "probe" else np.zeros(3)
+    return 2.0 if which == "probe" else 3.0
 
 
 def _probe_composite(o):
@@ -68,7 +81,7 @@ def _probe_composite(o):
     try:
         cv = list(o.get_conditioning_variables())
         out["cond_vars"] = sorted(cv)
-        c = o(**{cv[0]: 2.0}) if cv else o
+        c = o(**{cv[0]: _cond_value(o, "probe")}) if cv else o
         x = np.arange(1, c.dim + 1, dtype=float) * 0.5
     except Exception:
         return {"probe": "raises"}
@@ -152,7 +165,7 @@ class Pool:
                 fp["grad"] = _try(lambda: o.gradient(R.completion(1)[v]))
         elif kind == "composite":
             fp["name"] = _try(lambda: 0) and o.name
-            fp["dim"] = o.dim
+            fp["dim"] = _try(lambda: o.dim)
             fp["fd"] = bool(o.FD_enabled)
             fp.update({"p_" + k: v for k, v in _probe_composite(o).items()})
         elif kind == "lik":
@@ -230,7 +243,7 @@ def replay_case(ctx, case, par, r, sweeps, seed):
                     cv = list(e["obj"].get_conditioning_variables())
                     if not cv:
                         return
-                    new = (e["obj"](**{cv[0]: 3.0}), "composite", {}, None, {})
+                    new = (e["obj"](**{cv[0]: _cond_value(e["obj"], "cond")}), "composite", {}, None, {})
                 elif act == "mutate_copy":
                     tgt = e["obj"]
                     if e["kind"] not in ("factor", "composite") or not hasattr(tgt, "get_mutable_variables"):
